@@ -13,6 +13,9 @@ type Sec struct {
 	// Flags is the section's Characteristics word (0 = code | execute | read, 0x60000020). The
 	// Authenticode algorithm does not look at it: what is hashed is decided by SizeOfRawData alone.
 	Flags uint32
+	// VirtZero writes VirtualSize = 0 although the section has raw data (the Authenticode algorithm
+	// reads SizeOfRawData only; VirtualSize is just another covered header field)
+	VirtZero bool
 }
 
 type Layout struct {
@@ -140,7 +143,10 @@ func Build(l Layout) []byte {
 	for i := 0; i < n; i++ {
 		h := secTable + 40*i
 		copy(b[h:], []byte{'.', 's', byte('0' + i), 0, 0, 0, 0, 0})
-		binary.LittleEndian.PutUint32(b[h+8:], uint32(size[i]))       // VirtualSize
+		binary.LittleEndian.PutUint32(b[h+8:], uint32(size[i])) // VirtualSize
+		if l.Secs[i].VirtZero {
+			binary.LittleEndian.PutUint32(b[h+8:], 0)
+		}
 		binary.LittleEndian.PutUint32(b[h+12:], uint32(0x1000*(i+1))) // VirtualAddress
 		binary.LittleEndian.PutUint32(b[h+16:], uint32(size[i]))
 		binary.LittleEndian.PutUint32(b[h+20:], uint32(ptr[i]))
